@@ -257,7 +257,9 @@ def findNode (env : List Node) (name : Str) : Option Node := env.find? (fun n =>
 
 /-- girparser.c start_function, `<callback>` inside a `<field>`: a record or class field embeds it
     (`field->callback`); in a union, boxed or interface the field's type becomes `gpointer`
-    (`parse_type (ctx, "gpointer")`: tag VOID, is_pointer) and the signature is skipped -/
+    (`parse_type (ctx, "gpointer")`: tag VOID, is_pointer), `ctx->current_typed` is cleared (so the
+    next function-like element is a member of the container again, not this field's callback) and the
+    signature is skipped -/
 def inlineCallbackField (parent : NodeKind) (name : Str) : Member :=
   match parent with
   | .struct | .object => .field name true (.basic Gen.tagVoid false)
